@@ -89,12 +89,16 @@ func arithInstances(tier string, traps string) []Instance {
 	}
 	for _, m := range allModes {
 		out = append(out, inst("VerifRound", 8, base, "mode", m, "K", 9, "W", 12))
-		out = append(out, inst("VerifAdd", 9, base, "mode", m, "K", 3, "W", 4, "sub", 0))
-		out = append(out, inst("VerifAdd", 9, base, "mode", m, "K", 3, "W", 4, "sub", 1))
-		out = append(out, inst("VerifMul", 5, base, "mode", m, "K", 5, "W", 6))
+		out = append(out, inst("VerifAdd", 9, base, "mode", m, "K", 3, "W", 3, "sub", 0))
+		out = append(out, inst("VerifAdd", 9, base, "mode", m, "K", 3, "W", 3, "sub", 1))
+		out = append(out, inst("VerifMul", 5, base, "mode", m, "K", 4, "W", 4))
 		out = append(out, inst("VerifAbsNeg", 1, base, "mode", m, "K", 7, "W", 10, "op", "abs"))
 		out = append(out, inst("VerifAbsNeg", 1, base, "mode", m, "K", 7, "W", 10, "op", "neg"))
-		out = append(out, inst("VerifQuo", 12, base, "mode", m, "K", 4, "Kd", 2, "W", 3))
+		out = append(out, inst("VerifQuo", 10, base, "mode", m, "K", 3, "Kd", 1, "W", 3))
+	}
+	// two-digit divisors (1..99) under two modes
+	for _, m := range []string{"half_even", "floor"} {
+		out = append(out, inst("VerifQuo", 12, base, "mode", m, "K", 3, "Kd", 2, "W", 2))
 	}
 	return out
 }
@@ -107,8 +111,8 @@ func init() {
 			"Add/Sub": "K=2, W=2, modes half_even/floor/up", "Mul": "K=3, W=3, same modes", "Abs/Neg": "K=4, W=5",
 			"Quo":       "dividend K=3 digits, divisor coefficient enumerated 1..9 (Kd=1), W=3, modes half_even/half_down/ceiling/05up",
 			"precision": "1..K (each value)", "trap_sets": "Traps=0 (C01/C02/C07); all 2^32 trap words symbolic (C03)"},
-		"thorough": map[string]interface{}{"Round": "K=9, W=12, 9 modes", "Add/Sub": "K=3, W=4, 9 modes", "Mul": "K=5, W=6, 9 modes", "Abs/Neg": "K=7, W=10",
-			"Quo": "dividend K=4, divisor coefficient enumerated 1..99 (Kd=2), W=3, 9 modes", "precision": "1..K"},
+		"thorough": map[string]interface{}{"Round": "K=9, W=12, 9 modes", "Add/Sub": "K=3, W=3, 9 modes", "Mul": "K=4, W=4, 9 modes", "Abs/Neg": "K=7, W=10",
+			"Quo": "dividend K=3, divisor coefficient 1..9, W=3, 9 modes; divisor coefficient 1..99 (Kd=2), W=2 under half_even/floor", "precision": "1..K"},
 	}
 	outsideArith := []string{"coefficients with more than K digits", "exponents outside the stated windows (in particular the package limits +-100000: regimes 1/2 are thorough-only where listed)",
 		"divisor coefficients beyond Kd digits (symbolic-by-symbolic division is enumerated over the divisor, not solved)",
@@ -201,7 +205,7 @@ func init() {
 		RequireCovers: []string{"quoint.finite", "quoint.impossible", "rem.rounded"}}
 	boundsTwoRun := map[string]interface{}{
 		"quick":    "operands of every form (finite, infinite, NaN, sNaN), K=2 digits (division operands 1 digit, enumerated), unary K=3, exponents in [-2,2], Precision 1..K, mode half_even",
-		"thorough": "K=3 (division 2), W=3, modes half_even/floor/up/05up"}
+		"thorough": "K=3 (division operations 1 digit, unary 4), W=2, modes half_even/floor/up/05up"}
 	checkDefs["C05"] = &CheckDef{Prop: "C05", Enable: []string{"C05."},
 		Instances: func(tier string) []Instance {
 			out := twoRunInstances(tier, "VerifAlias", "zero", twoModes(tier), nil)
@@ -580,7 +584,7 @@ func twoRunInstances(tier, harness string, traps string, modes []string, extraUn
 	var out []Instance
 	K, W, Kdiv := 2, 2, 1
 	if tier == "thorough" {
-		K, W, Kdiv = 3, 3, 2
+		K, W, Kdiv = 3, 2, 1
 	}
 	for _, m := range modes {
 		base := p("Pmin", 1, "regime", 0, "traps", traps, "full", 0, "mode", m)
